@@ -1,10 +1,6 @@
 import JjModel.Generated.TableGuard
 /-!
-  C21 — the guard obligation.  **Prepared, not yet part of the build.**  Activate after the F8 repair
-  (`notes/C21-fix.patch`) has been committed in /repo:
-
-      git mv lean/JjModel/Props/C21Guard.lean.pending lean/JjModel/Props/C21Guard.lean
-      sed -i 's/^-- AFTER-FIX: //' lean/JjModel/Props/C21.lean     # import + `no_entry_lost_now`
+  C21 — the guard obligation (active since the F8 repair, /repo commit 9f7a0d7).
 
   `tools/translate.py` regenerates `Generated/TableGuard.lean` from the source text on every check;
   if the guard is ever removed again, `tableGuardEq` becomes `false`, `guard_present` stops
